@@ -1192,7 +1192,7 @@ class MultipartWriter(Payload):
         parts: list[bytes] = []
 
         # Process each part
-        for part, _e, _te in self._parts:
+        for part, part_encoding, te_encoding in self._parts:
             # Add boundary
             parts.append(b"--" + self._boundary + b"\r\n")
 
@@ -1201,6 +1201,17 @@ class MultipartWriter(Payload):
 
             # Add payload content using as_bytes for async safety
             part_bytes = await part.as_bytes(encoding, errors)
+            if part_encoding or te_encoding:
+                # ... in the encodings its headers announce, as write() does
+                buf = _BytesCollector()
+                w = MultipartPayloadWriter(buf)  # type: ignore[arg-type]
+                if part_encoding:
+                    w.enable_compression(part_encoding)
+                if te_encoding:
+                    w.enable_encoding(te_encoding)
+                await w.write(part_bytes)
+                await w.write_eof()
+                part_bytes = bytes(buf.data)
             parts.append(part_bytes)
 
             # Add trailing CRLF
@@ -1264,6 +1275,16 @@ class MultipartWriter(Payload):
                     internal_logger.error(
                         "Failed to close multipart part %d: %s", idx, exc, exc_info=True
                     )
+
+
+class _BytesCollector:
+    """The part of a stream writer MultipartPayloadWriter uses, into memory."""
+
+    def __init__(self) -> None:
+        self.data = bytearray()
+
+    async def write(self, chunk: bytes | bytearray | memoryview) -> None:
+        self.data += chunk
 
 
 class MultipartPayloadWriter:
